@@ -64,15 +64,15 @@ def jobs_for(tier, rnd):
             if G.well_formed(c, G.RULES_NULLABLE) and not any(x[0] in ('byte', 'bt') for x in walk(c)):
                 strat.append(c)
     rnd.shuffle(strat)
-    es = d2 + strat[:400 if tier == 'quick' else 2500]
+    es = d2 + strat[:400 if tier == 'quick' else 1500]
     variants = [(i, w, k) for i in IGNS for w in ('before', 'after') for k in (False, True)]
     jobs, gid = [], 0
     pairs = {}
     for n, e in enumerate(es):
-        vs = [variants[(n + j * 5) % len(variants)] for j in range(2 if tier == 'quick' else 6)]
+        vs = [variants[(n + j * 5) % len(variants)] for j in range(2 if tier == 'quick' else 4)]
         for ign, where, klass in vs:
             alpha = 'ab _' if ign == 'two' else 'ab '
-            TX = G.texts(alpha, 4 if (tier == 'quick' or ign == 'two') else 5, extra=(' a b ', 'a  b', 'ab  ', '  ab', ' a  a  b'))
+            TX = G.texts(alpha, 4, extra=(' a b ', 'a  b', 'ab  ', '  ab', ' a  a  b'))
             d, dx = describe(e, ign, where, klass)
             opts = {'ign': ign, 'where': where, 'klass': klass}
             jobs.append((gid, d, TX, dict(opts, role='ignore')))
